@@ -128,6 +128,36 @@ let launch_monitor (a : ostring list) (obs : ostring list) : ostring option =
       else None
     | _ -> Some "unparsable"
 
+(* ---------------- await ---------------- *)
+let aw_model (a : ostring list) : ostring list =
+  match a with
+  | status :: fid :: run :: ws ->
+    let status = zi (ios status) in
+    let recs = List.map (fun w -> match split '.' w with
+      | ["w"; run; fid; st; status] ->
+        { r_wf = N0; r_fid = n_of_int (ios fid); r_run = n_of_int (ios run); r_state = rs_of_int (ios st); r_status = zi (ios status);
+          r_obj = ODeleted; r_created = Z0; r_updated = Z0; r_ver = Z0; r_reason = N0; r_desc = Z0 }
+      | _ -> failwith "aw write") ws in
+    let i = await_first (status = zi 3) (n_of_int (ios fid)) (n_of_int (ios run)) status recs Z0 in
+    let i = int_of_z i in
+    [string_of_int i; (if i < 0 then "0" else sz (List.nth recs i).r_status)]
+  | _ -> failwith "aw arity"
+let aw_monitor (a : ostring list) (obs : ostring list) : ostring option =
+  match a, obs with
+  | status :: _ :: run :: ws, [i; got] ->
+    let i = ios i in
+    if i < 0 then (if aw_model a = obs then None else Some "Await did not return although an event recording the awaited status of the awaited run was published")
+    else
+      (match split '.' (List.nth ws i) with
+       | ["w"; r; _; _; s] ->
+         if r <> run then Some "Await was released by an event of another run"
+         else if s <> status then Some (Printf.sprintf "Await(status %s) was released by an event recording status %s" status s)
+         else if got <> status then Some "Await returned a run that is not at the awaited status"
+         else if aw_model a <> obs then Some "Await was released by a later event than the first one recording the awaited status"
+         else None
+       | _ -> Some "unparsable")
+  | _ -> Some "unparsable"
+
 let register (reg : ostring -> (ostring list -> ostring list) -> (ostring list -> ostring list -> ostring option) -> unit) =
   let equal_monitor what model args obs =
     let m = (try model args with Failure e -> ["MODEL-ERROR:" ^ e]) in
@@ -145,4 +175,13 @@ let register (reg : ostring -> (ostring list -> ostring list) -> (ostring list -
   reg "mst" mst_model (equal_monitor "stream" mst_model);
   reg "mco" mco_model (equal_monitor "connector" mco_model);
   reg "mto" mto_model (equal_monitor "timeout store" mto_model);
-  reg "launch" launch_model launch_monitor
+  reg "launch" launch_model launch_monitor;
+  reg "aw" aw_model aw_monitor;
+  (* Schedule is rejected (and starts nothing) iff the workflow is not running or the specification is not one of the
+     valid ones of the grid; a valid specification on a running workflow starts exactly one scheduler *)
+  let schedrej a = (match a with
+    | [running; spec] ->
+      let valid = List.mem (string_of_hex spec) ["* * * * *"; "@hourly"] in
+      if running = "1" && valid then ["0"; "1"] else ["1"; "0"]
+    | _ -> failwith "schedrej") in
+  reg "schedrej" schedrej (equal_monitor "Schedule" schedrej)
